@@ -220,7 +220,9 @@ C("mako.codegen:_Identifiers.__init__",
            ("compiler-kept", "same(self.compiler, compiler)"),
            ("a scope without a parent starts with nothing declared", "implies(parent is None, forall(lambda k: k not in self.declared, ty='Str'))"),
            ("a child scope may use what its parent declared, bound or took as arguments - and, when nested, what the parent obtains from the context",
-            "implies(parent is not None and not any_isinstance(node, 'NamespaceTag'), forall(lambda k: implies(k in old(parent.declared) or k in old(parent.locally_declared) or k in old(parent.argument_declared) or (nested and k in old(parent.undeclared)), k in self.declared), ty='Str'))")],
+            "implies(parent is not None and not dyn_isinstance(node, 'NamespaceTag'), forall(lambda k: implies(k in old(parent.declared) or k in old(parent.locally_declared) or k in old(parent.argument_declared) or (nested and k in old(parent.undeclared)), k in self.declared), ty='Str'))"),
+           ("the defs of a <%namespace> body share nothing with the template body, but the module-level names (<%! %> blocks, imports, UNDEFINED) stay plain names for them",
+            "implies(parent is not None and dyn_isinstance(node, 'NamespaceTag'), forall(lambda k: implies(k in old(parent.declared), k in self.declared), ty='Str'))")],
   raises={"NameConflictError": {}, "*": {}},
   props=["C04"], native_skip=True,
   note="the node is visited under the induction hypothesis R3 (visitors only add names); the scope's inherited names are checked by the bounded scope grid")
